@@ -1217,6 +1217,36 @@ async def op_nested(env, ctx, step):
     return time.now == before
 
 
+async def op_phases(env, ctx, step):
+    """Two live subscriptions of one activity to the same notification that are left in the
+    order in which they were made (not nested): an async generator enters until(n) and yields
+    from inside it; its consumer - this activity - then enters an until(n) of its own and lets
+    the generator leave *its* block first.  (The generator's block is left before anybody else
+    gets to run, so n cannot fire while a block is open across a yield - that would be the
+    user's bug, like yielding inside a cancel scope.)"""
+    notif = make_notif(env, step['n'])
+    if notif:
+        return 'skipped'        # already true: the generator's block could not be entered
+    env.sess.stats['phases'] += 1
+
+    async def phases():
+        async with until(notif):
+            yield 'warm-up'
+        yield 'main'
+    box = [phases()]
+    mine = until(notif)
+    ctx.scopes.append(mine)
+    try:
+        await box[0].__anext__()
+        async with mine:
+            await box[0].__anext__()
+            await run_steps(env, ctx, step['body'])
+    finally:
+        ctx.scopes.remove(mine)
+        box.clear()
+    return 'ok'
+
+
 async def op_graceful(env, ctx, step):
     """a body with an *asynchronous* clean-up: when the body is cancelled, interrupted or fails
     (anything but a forceful close) the clean-up steps are awaited before the exception passes on
@@ -1258,7 +1288,7 @@ HANDLERS = {
     'borrow': op_borrow, 'resource': op_resource, 'transfer': op_transfer,
     'scope': op_scope, 'spawn': op_spawn, 'cancel': op_cancel, 'await_task': op_await_task,
     'raise': op_raise, 'ticker': op_ticker, 'collect': op_collect, 'first': op_first,
-    'nop': op_nop, 'try': op_try, 'guard': op_guard, 'watch': op_watch, 'nested': op_nested, 'graceful': op_graceful, 'fragile': op_fragile,
+    'nop': op_nop, 'try': op_try, 'guard': op_guard, 'watch': op_watch, 'nested': op_nested, 'phases': op_phases, 'graceful': op_graceful, 'fragile': op_fragile,
 }
 
 
